@@ -133,12 +133,22 @@ class DGen(qf.QGen):
         t[-1] = self.r.choice(["al", "n", "total"])
         return t
 
-    def source(self, cls, depth):
-        if depth < self.max_depth and self.r.random() < 0.05:
-            q = self.setop(self.cls(cls))
-            q["alias"] = self.r.choice(["su", "z"])   # an un-aliased set operation as a JOIN item is C11's business
-            return ["q", q]
-        return super().source(cls, depth)
+    def over_setop(self, cls):
+        """SELECT ... FROM (<set operation>) [alias]: the only position where a set operation is used as a source
+        (next to joins an un-aliased table would pick up pypika's "2" alias: Term.__eq__ makes `table in [setop]` true)"""
+        so = self.setop(self.cls(cls))
+        if self.r.random() < 0.6:
+            so["alias"] = self.r.choice(["su", "z"])
+        q = {"k": "sel", "cls": cls, "from": [["q", so]], "joins": [],
+             "selects": [self.sitem(cls, 1, 1) for _ in range(self.r.choice([1, 2]))]}
+        if self.r.random() < 0.5:
+            q["where"] = self.citem(cls, 1, 1)
+        return q
+
+    def any(self):
+        if self.r.random() < 0.06:
+            return self.over_setop(self.cls())
+        return super().any()
 
 
 def gen_kw(rng):
